@@ -8,6 +8,15 @@ Binding: real submission.GetSCTs under virtual time with a scripted Submitter ov
 (property clauses checked on every result), H4 events (emitted under the mutex) validated by SubmissionTrace.tla,
 Distributor.AddChain cases replayed, and the race detector on concurrent submissions / weight changes / refreshes.
 
+Outcomes, sessions, weights (round 5): Submission.tla's outcome is the PAIR SubmitToLog returns - (sct,nil), (nil,err),
+(sct,err), (nil,nil), hang; only an outcome without error is an SCT (OnlyAnswersCount) - and a group race runs over the
+group's submission SESSION (sess; ViableSessions), not its members.  SubmissionWeights.tla is the history machine above
+it: SetLogWeight / SetLogWeights - accepted and refused - interleaved with submissions (RefusedChangesNothing,
+GroupsStayViable, the verdict a submission must give for the sessions reached); its simulated histories are replayed on
+long-lived ctpolicy.LogGroupInfo objects.  Distributor.tla's wire cases put three real log clients (submission.BuildLogClient,
+key from the log list) behind a real Distributor: the reply classes of a log on the wire, of which only a valid SCT under
+the listed key over the submitted entry is an SCT.
+
 spec/submit/ProxyLifecycle.tla: WHICH log list a submission runs against - the refresher (read / compare / parse), the
 LogListManager's ticker goroutine and its two capacity-1 channels, the proxy loop (builder, swap under distMu, Init), one
 root refresher per distributor generation, submissions reading p.dist, cancellation; safety exhaustively on small constants
@@ -34,6 +43,12 @@ def run(ctx, replay=None):
         "group layouts: Chrome-like (1 Google + 2 other logs, N=2; 2+2 logs, N=3) and Apple-like (3 logs, N=2); exhaustive "
         "TLC runs use the N=2 layouts, hang outcomes and cancellation are model-checked on the Apple layout",
         "data-race freedom is judged by the Go race detector on the concurrent scenarios of TestRaces",
+        "weights: offered values {-1, 0, 1, 2}, one stranger URL, histories of 8 steps (operations and submissions) on the "
+        "three layouts; a submission after a history has no hangs and no deadline; sessions smaller than the groups are "
+        "model-checked exhaustively on the two-log / two-group layout and the Apple layout in the quick tier (Chrome N=2 "
+        "safety in the thorough tier)",
+        "wire cases: three logs (one Google), at most one reply that is not a valid SCT, or two from {other key, HTTP 400, "
+        "503}; the log list's keys are ECDSA P-256 and RSA-2048",
     ]
     if replay:
         with open(replay) as f:
@@ -49,21 +64,54 @@ def run(ctx, replay=None):
         proxy_lifecycle(ctx, model=(only != "proxybind"))
     if only in ("proxy", "proxybind"):
         return
-    # 1. goroutine-level model: safety exhaustively, liveness on the smallest layouts
-    ctx.tlc("submit", "MCSubmission", "SubmissionChrome2Safety.cfg", timeout=3000)
-    ctx.tlc("submit", "MCSubmission", "SubmissionAppleSafety.cfg", timeout=3000)
-    ctx.tlc("submit", "MCSubmission", "SubmissionApple.cfg", workers=8, timeout=3000)
+    # 1. goroutine-level model: safety exhaustively, liveness on the smallest layouts; the four shapes of the outcome pair
+    #    (Outcomes), sessions smaller than the groups (Sessions), the weight-history machine exhaustively over its weight
+    #    states; the histories the harness replays are simulated alongside
+    jobs = [("MCSubmission", "SubmissionChrome2Safety.cfg", 8), ("MCSubmission", "SubmissionAppleSafety.cfg", 4),
+            ("MCSubmission", "SubmissionApple.cfg", 4), ("MCSubmission", "SubmissionAppleOutcomes.cfg", 4),
+            ("MCSubmission", "SubmissionAppleSessions.cfg", 2), ("MCSubmission", "SubmissionDuoSessions.cfg", 4),
+            ("MCSubmissionWeights", "SubmissionWeightsChrome2Small.cfg", 2), ("MCSubmissionWeights", "SubmissionWeightsApple.cfg", 2),
+            ("MCSubmissionWeights", "SubmissionWeightsChrome3.cfg", 2)]
     if ctx.thorough():
-        ctx.tlc("submit", "MCSubmission", "SubmissionChrome2.cfg", workers=8, timeout=6000)
-        ctx.tlc("submit", "MCSubmission", "SubmissionChrome3Safety.cfg", timeout=10000)
-    # 2. policy / eligibility cases
+        jobs += [("MCSubmission", "SubmissionChrome2.cfg", 8), ("MCSubmission", "SubmissionChrome3Safety.cfg", 8),
+                 ("MCSubmission", "SubmissionChrome2OutcomesSafety.cfg", 8), ("MCSubmission", "SubmissionChrome2SessionsSafety.cfg", 8),
+                 ("MCSubmission", "SubmissionDuoSessionsCancel.cfg", 6), ("MCSubmissionWeights", "SubmissionWeightsChrome2.cfg", 4)]
+    sims = [("sim", lay, ctx.pick(150, 1200)) for lay in POLICIES]
+
+    def one(job):
+        if job[0] == "sim":
+            return job, ctx.tlc("submit", "MCSubmissionWeights", "SubmissionWeightsSim%s.cfg" % job[1], simulate=job[2], depth=40,
+                                count=False, timeout=3000)
+        return job, ctx.tlc("submit", job[0], job[1], workers=job[2], count=False, timeout=ctx.pick(3000, 14000))
+
+    with ThreadPoolExecutor(max_workers=ctx.pick(3, 2)) as ex:
+        results = list(ex.map(one, jobs + sims))
+    wbehs = []
+    for job, r in results:
+        if job[0] == "sim":
+            behs = r.records.get("BEH", [])
+            if not behs:
+                raise Infra("the weight-history simulation exported no behaviours for " + job[1])
+            wbehs += [dict(b, policy=job[1]) for b in behs]
+        else:
+            ctx.states += r.distinct
+            ctx.transitions += r.generated
+    if ctx.thorough():
+        # the verdict as GetSCTs is written (the conjunction of what the group races returned) is not the verdict of the
+        # shared state once sessions are smaller than the groups: TLC refutes FailureHonest on that variant of the model
+        r = ctx.tlc("submit", "MCSubmission", "SubmissionDuoSessionsOld.cfg", workers=4, count=False, expect_violation=True, timeout=3000)
+        if r.violated != "FailureHonest":
+            raise Infra("SubmissionDuoSessionsOld: TLC was expected to refute FailureHonest but reported %r" % r.violated)
+        ctx.notes["submission-observations"] = {"DuoSessionsOld": "FailureHonest refuted by TLC for RecomputeVerdict = FALSE (verdicts of the races instead of the shared state)"}
+    wpath = ctx.write_ndjson("weight-histories.ndjson", wbehs)
+    # 2. policy / eligibility / wire cases
     ctx.tlc("submit", "MCDistributor", "Distributor.cfg", workers=4)
     r = ctx.tlc("submit", "MCDistributor", "DistributorExport.cfg", workers=1, count=False)
     dcases = r.records.get("CASE", [])
-    if not dcases:
-        raise Infra("no distributor cases")
+    if not dcases or not any(c["c"]["t"] == "wire" for c in dcases):
+        raise Infra("no distributor / wire cases")
     path = ctx.write_ndjson("dcases.ndjson", dcases)
-    ctx.go_test("vt/c17", run="TestDistributor$", env={"VERIF_CASES": path}, toolchain="go1.26", timeout=3000, name="dist")
+    ctx.go_test("vt/c17", run="TestDistributor$|TestWire$", env={"VERIF_CASES": path}, toolchain="go1.26", timeout=3000, name="dist")
     # 3. GetSCTs scenarios under virtual time, with H4 traces (several processes in the thorough tier: each draws
     #    another sample of the latency assignments, and a toolchain crash costs one chunk only)
     #    The race detector is applied to a smaller sample in a separate process: under -race the go1.26.8 runtime
@@ -71,12 +119,18 @@ def run(ctx, replay=None):
     for chunk in range(ctx.pick(1, 8)):
         out, outdir, _ = ctx.go_test("vt/c17", run="TestGetSCTs$", toolchain="go1.26", race=False, timeout=6000,
                                      name="getscts%d" % chunk,
-                                     env={"VERIF_CASES_PER_POLICY": ctx.pick(400, 600), "VERIF_REPEAT": 2, "VERIF_SALT": chunk})
+                                     env={"VERIF_CASES_PER_POLICY": ctx.pick(400, 600), "VERIF_REPEAT": 2, "VERIF_SALT": chunk,
+                                          "VERIF_WEIGHT_BEHS": chunk_file(ctx, wbehs, chunk, ctx.pick(1, 8))})
         validate(ctx, outdir)
     ctx.go_test("vt/c17", run="TestGetSCTs$", toolchain="go1.26", race=True, timeout=6000, name="getscts-race",
-                env={"VERIF_CASES_PER_POLICY": 80, "VERIF_REPEAT": 1, "VERIF_SALT": 99})
+                env={"VERIF_CASES_PER_POLICY": 80, "VERIF_REPEAT": 1, "VERIF_SALT": 99,
+                     "VERIF_WEIGHT_BEHS": ctx.write_ndjson("weight-histories-race.ndjson", wbehs[::5])})
     # 4. data races
     ctx.go_test("vt/c17", run="TestRaces$", toolchain="go1.26", race=True, timeout=3000, name="races")
+
+
+def chunk_file(ctx, behs, chunk, nchunks):
+    return ctx.write_ndjson("weight-histories-%d.ndjson" % chunk, behs[chunk::nchunks])
 
 
 def validate(ctx, outdir):
